@@ -10,16 +10,16 @@ CHECKS = [
   "note": NOTE},
  {"property_id": "C06", "technique": "static: dominance (pull-before-drop), paired-store analysis, reaching-definition layout provenance",
   "text": "Decides: a view pulls its gradient before clear_graph drops its creator; every nulling of _grad is paired with nulling _view_grad; Tensor.grad replays the view op untracked and "
-          "validates its cache by base identity; the first contribution stored in var._grad must be allocated with var.data's layout (fails today: known finding D5)." + NOT_DECIDED +
+          "validates its cache by base identity and returns a cached view gradient only validated or freshly recomputed; the first contribution stored in var._grad must be allocated with var.data's layout (fails today: known finding D5)." + NOT_DECIDED +
           "value equality of v.grad with the replayed chain.", "note": NOTE},
  {"property_id": "C07", "technique": "static: who-may-write / typestate of back-references (weak vs strong), must-reach graph cuts on clear_graph and backward",
-  "text": "Decides: everything added to Tensor._ops is a weakref and _view_children is always a WeakRefIterable; no op holds its own output strongly; finalizer arguments are weak containers; "
+  "text": "Decides: everything added to Tensor._ops is a weakref and _view_children is always a WeakRefIterable; no op holds its own output strongly; state handed to the internal UnView/ApplyMask ops captures placeholders only; finalizer arguments are weak containers; "
           "clear_graph empties both sets on every call, drops the creator before recursing over all of its variables; backward reaches clear_graph on every normal exit; gradients are nulled at the "
           "three documented sites." + NOT_DECIDED + "actual CPython refcount behaviour; bit-identity of repeated steps.", "note": NOTE},
  {"property_id": "C08", "technique": "static: CFG path analysis with exceptional edges (lock->release on all paths), who-may-write, typestate of the lock counter",
   "text": "Structural necessary conditions, exhaustive over the paths of Tensor._op under every TRACK_GRAPH x MEM_GUARD specialisation and over all lock sites: "
           "every lock taken is released or handed to the op's finalizer on all normal and exceptional exits; every locked array is registered; bases are yielded "
-          "before views; the counter is only incremented by the lock function and the flag restored only by the last holder." + NOT_DECIDED + "interleavings of "
+          "before views; the counter is only incremented by the lock function and the flag restored only by the last holder; the waiting-view set is wiped only when the tracker is empty; only an op's own output is force-locked; the release routine is called directly only on the acquiring function's error path and never twice on a path." + NOT_DECIDED + "interleavings of "
           "finalizers and reference drops (schedule quantifier).", "note": NOTE},
  {"property_id": "C09", "technique": "static: guard dominance + monotonicity of the staleness marker via who-may-write enumeration",
   "text": "Decides: the InvalidBackprop guard dominates every backward_var call; clear_graph empties the consumer set of every upstream tensor; the marker read by the guard (Tensor._ops) "
@@ -27,7 +27,7 @@ CHECKS = [
  {"property_id": "C10", "technique": "static: mode-specialised CFG reachability of the dtype gate, dominance of constant tests over gradient stores, forwarding of constant= at all wrapper sites",
   "text": "Decides: Tensor.__init__ raises before storing the flag for non-real dtypes / constant=False on integers; default is not-is_float; explicit flag kept; every value store to a tensor's "
           "_grad lies on the non-constant edge of a .constant test (Tensor.copy fails: known finding D9); _op only infers constant when it is None; backward on a constant only clears; every wrapper "
-          "forwards constant=." + NOT_DECIDED + "equality of gradients with the constants-replaced-by-arrays program.", "note": NOTE},
+          "forwards constant=; in-place results take the memory owner's flag; a re-wrapped operand keeps its own flag." + NOT_DECIDED + "equality of gradients with the constants-replaced-by-arrays program.", "note": NOTE},
  {"property_id": "C13", "technique": "static: CFG path analysis with exceptional edges (no irreversible write before the last may-raise call), handler/rollback dominance",
   "text": "Structural necessary conditions: in Tensor._op no input-tensor state is written before a call that may still raise; the forward call and the in-place "
           "kernel are guarded by handlers that release/restore and re-raise; public tensors are mirrored only after the kernel succeeded; the shape setter validates "
@@ -56,7 +56,7 @@ CHECKS = [
  {"property_id": "C03", "technique": "static: option-forwarding dataflow to the NumPy kernels (sentinel-guard recognition), dead-parameter lint over all forward passes and wrappers, flow-sensitive value slice w.r.t. TRACK_GRAPH",
   "text": "Decides: in UnaryUfunc/BinaryUfunc/Sequential.__call__ the operands reach the kernel in order and every option reaches it under its own name unless it holds its not-given sentinel; no forward pass or "
           "wrapper has a dead parameter and one-line wrappers forward every parameter to like-named keys; the value returned by an op's forward pass has no data/control dependence on TRACK_GRAPH (backward "
-          "slice over reaching definitions and in-place updates); Python scalars must reach the kernel unconverted (fails today: known finding D6)." + NOT_DECIDED + "equality of values/dtypes in general "
+          "slice over reaching definitions and in-place updates); kernel options hard-wired by an op (order=) equal NumPy's defaults; Python scalars must reach the kernel unconverted (fails today: known finding D6)." + NOT_DECIDED + "equality of values/dtypes in general "
           "(NumPy's run-time semantics); 0-d/empty/non-contiguous corner cases.", "note": NOTE},
  {"property_id": "C16", "technique": "static: keyword/typestate check of as_strided, ancestor/dominance ordering of validation vs striding, sympy term comparison of caller/callee extent polynomials",
   "text": "Narrow claim. Decides: the window view is created read-only; every raising guard of sliding_window_view precedes the striding and strides are read after the contiguity normalisation; the layers' "
@@ -65,12 +65,12 @@ CHECKS = [
  {"property_id": "C04", "technique": "static: ownership/alias abstract interpretation of every op's forward pass vs its can_return_view flag; sibling agreement of in-place spellings; def-use shape of base assignment and mirroring",
   "text": "Decides: an op whose forward result may be, or may view, an operand's array declares can_return_view (so Tensor._op runs view detection); in-place dunders use the same Operation as the "
           "out-of-place ones, target self and return self; public tensors change only through mirror_tensor (identity-preserving shallow copy), views are replayed on their updated parents, parents first; "
-          "the base handed to a view is None or the memory owner, the three sharing configurations are recognised, views are registered and record replay arguments." + NOT_DECIDED +
+          "the base handed to a view is None or the memory owner, a parent whose graph was cleared counts as owner, the three sharing configurations are recognised, views are registered and record replay arguments; the shape setter replays a view on the un-reshape exactly when its parent is the re-shaped tensor." + NOT_DECIDED +
           "values, shares_memory equivalence and .base correctness across arbitrary histories (run-time graph surgery).", "note": NOTE},
  {"property_id": "C05", "technique": "static: def-use chain of the in-place kernel's out= target to a private copy, must-call / dominance of placeholder creation and re-routing, condition-exactness of the glue ops",
-  "text": "Narrow claim. Decides: with tracking on the in-place kernel writes into (a placeholder view replay of) graph.base.tensor.copy() made after the graph was duplicated, its operands are placeholders; "
+  "text": "Narrow claim. Decides: with tracking on the in-place kernel writes into (a placeholder view replay of) graph.base.tensor.copy() made after the graph was duplicated and preserving its memory layout, its operands are placeholders; "
           "placeholders mirror the originals and take over exactly their consumers, for the base and every view child; duplication dominates the kernel which dominates every mirror, failures restore the "
-          "graph; ApplyMask/UnView are created under exactly their conditions with the placeholder operands." + NOT_DECIDED + "the gradient values themselves (overwritten-region zeroing, "
+          "graph; ApplyMask/UnView are created under exactly their conditions with the placeholder operands; where-masks are applied by broadcasting arithmetic, never as an index." + NOT_DECIDED + "the gradient values themselves (overwritten-region zeroing, "
           "last-write resolution for repeated indices, mask routing): value-level, run-time.", "note": NOTE},
  {"property_id": "C12", "technique": "static: ownership/alias abstract interpretation (origins P/IN/S/N x SAME/VIEW, guard refinement, interprocedural mutation summaries) over every op method, helper and wrapper",
   "text": "Decides: every write site (item/augmented assignment, out=, ufunc.at, copyto..., in-place methods, calls that mutate a parameter) in every op forward/backward, their helpers and the public "
@@ -82,7 +82,7 @@ CHECKS = [
   "text": "Decides, for the 66 op/operand pairs whose forward and backward bodies are closed-form (all arithmetic, exp/log, trigonometric, hyperbolic ufuncs, maximum/minimum, arctan2, where, and the elementwise "
           "activations): the term of backward_var|index=k equals g * d(forward term)/dx_k at exact sample points of the kernel's domain (49 additionally proved by simplification), and the documented conventions at "
           "non-differentiable points (|x| at 0, arcsin/arccos at +-1, max/min ties) hold; for every backward_var: the result is homogeneous-linear in grad (abstract domain), a value is returned for every index < arity, "
-          "and every attribute it reads is definitely assigned by the forward pass / constructor. The term domain is symbolic constant propagation over loop-free bodies (no path search, no solver)." + NOT_DECIDED +
+          "every attribute it reads is definitely assigned by the forward pass / constructor, and `~mask` acts only on proven-boolean values. The term domain is symbolic constant propagation over loop-free bodies (no path search, no solver)." + NOT_DECIDED +
           "VJPs of reductions, cumulative ops, matmul/einsum/norm, get/set-item, joins/tiling, conv/pool/batchnorm/GRU/losses (array-shaped index arithmetic - no closed term); option x shape interactions.", "note": NOTE},
 ]
 _BUILT = {c["property_id"] for c in CHECKS}
